@@ -2012,64 +2012,198 @@ func (te *TemplateEngine) processDocumentLevelLoops(doc *Document, data *Templat
 	return nil
 }
 
-// replaceVariablesInParagraph 在段落中替换变量（改进版本，更好地保持样式）
-func (te *TemplateEngine) replaceVariablesInParagraph(para *Paragraph, data *TemplateData) error {
-	// 首先识别所有变量占位符的位置
-	fullText := ""
-	runInfos := make([]struct {
-		startIndex int
-		endIndex   int
-		run        *Run
-	}, 0)
+// paraPiece 是段落内容中的一个单位：文本中的一个字节（及其来源Run），
+// 或者一个不含文本的内容（分页符、图片、域字符等）所在的位置（anchor）。
+type paraPiece struct {
+	b      byte
+	run    int
+	anchor bool
+}
 
-	currentIndex := 0
+// runHasNonTextContent 判断Run中是否有文本以外的内容
+func runHasNonTextContent(run *Run) bool {
+	return run.Break != nil || run.Drawing != nil || run.FieldChar != nil || run.InstrText != nil
+}
+
+// paraPiecesText 返回片段序列中的文本，以及文本中每个字节对应的片段下标
+func paraPiecesText(pieces []paraPiece) (string, []int) {
+	text := make([]byte, 0, len(pieces))
+	index := make([]int, 0, len(pieces))
+	for i, piece := range pieces {
+		if !piece.anchor {
+			text = append(text, piece.b)
+			index = append(index, i)
+		}
+	}
+	return string(text), index
+}
+
+// paraEdit 表示把文本区间 [start,end) 替换为 replacement（replacement 的字节沿用区间第一个字节的来源Run）
+type paraEdit struct {
+	start, end  int
+	replacement string
+}
+
+// applyParaEdits 按顺序应用互不重叠的编辑；区间内的 anchor 保留在原处
+func applyParaEdits(pieces []paraPiece, edits []paraEdit) []paraPiece {
+	if len(edits) == 0 {
+		return pieces
+	}
+	result := make([]paraPiece, 0, len(pieces))
+	textPos := 0
+	editIdx := 0
+	for _, piece := range pieces {
+		if piece.anchor {
+			result = append(result, piece)
+			continue
+		}
+		for editIdx < len(edits) && edits[editIdx].end <= textPos && edits[editIdx].end > edits[editIdx].start {
+			editIdx++
+		}
+		if editIdx < len(edits) && textPos >= edits[editIdx].start && textPos < edits[editIdx].end {
+			if textPos == edits[editIdx].start {
+				for k := 0; k < len(edits[editIdx].replacement); k++ {
+					result = append(result, paraPiece{b: edits[editIdx].replacement[k], run: piece.run})
+				}
+			}
+			textPos++
+			continue
+		}
+		result = append(result, piece)
+		textPos++
+	}
+	return result
+}
+
+// replaceVariablesInParagraph 在段落中替换变量和条件语句。
+// 占位符可以被拆分在多个Run中；保留下来的每个字符保持其所在Run的格式，替换值使用占位符
+// 第一个字符所在Run的格式，没有文本的Run（分页符、图片等）保持在原来的位置。
+func (te *TemplateEngine) replaceVariablesInParagraph(para *Paragraph, data *TemplateData) error {
+	// 展开段落内容
+	pieces := make([]paraPiece, 0)
+	hasText := false
 	for i := range para.Runs {
 		runText := para.Runs[i].Text.Content
-		if runText != "" {
-			runInfos = append(runInfos, struct {
-				startIndex int
-				endIndex   int
-				run        *Run
-			}{
-				startIndex: currentIndex,
-				endIndex:   currentIndex + len(runText),
-				run:        &para.Runs[i],
-			})
-			fullText += runText
-			currentIndex += len(runText)
+		for k := 0; k < len(runText); k++ {
+			pieces = append(pieces, paraPiece{b: runText[k], run: i})
+			hasText = true
+		}
+		if runText == "" || runHasNonTextContent(&para.Runs[i]) {
+			pieces = append(pieces, paraPiece{run: i, anchor: true})
 		}
 	}
 
 	// 如果没有文本内容，直接返回
-	if fullText == "" {
+	if !hasText {
+		return nil
+	}
+	sourceRuns := para.Runs
+
+	// 先处理循环语句（包括非表格循环）：循环展开后整段使用第一个文本Run的格式
+	fullText, _ := paraPiecesText(pieces)
+	changed := false
+	if processedText, hasLoopChanges := te.processNonTableLoops(fullText, data); hasLoopChanges {
+		firstTextRun := 0
+		for _, piece := range pieces {
+			if !piece.anchor {
+				firstTextRun = piece.run
+				break
+			}
+		}
+		newPieces := make([]paraPiece, 0, len(processedText))
+		for k := 0; k < len(processedText); k++ {
+			newPieces = append(newPieces, paraPiece{b: processedText[k], run: firstTextRun})
+		}
+		for _, piece := range pieces {
+			if piece.anchor {
+				newPieces = append(newPieces, piece)
+			}
+		}
+		pieces = newPieces
+		changed = true
+	}
+
+	// 条件语句：保留满足条件的分支
+	text, _ := paraPiecesText(pieces)
+	ifElsePattern := regexp.MustCompile(`(?s)\{\{#if\s+(\w+)\}\}(.*?)\{\{/if\}\}`)
+	elsePattern := regexp.MustCompile(`(?s)^(.*?)\{\{else\}\}(.*)$`)
+	edits := make([]paraEdit, 0)
+	for _, m := range ifElsePattern.FindAllStringSubmatchIndex(text, -1) {
+		condition := text[m[2]:m[3]]
+		bodyStart, bodyEnd := m[4], m[5]
+		keepStart, keepEnd := bodyStart, bodyEnd
+		condValue, exists := data.Conditions[condition]
+		if em := elsePattern.FindStringSubmatchIndex(text[bodyStart:bodyEnd]); em != nil {
+			if exists && condValue {
+				keepStart, keepEnd = bodyStart+em[2], bodyStart+em[3]
+			} else {
+				keepStart, keepEnd = bodyStart+em[4], bodyStart+em[5]
+			}
+		} else if !(exists && condValue) {
+			keepStart, keepEnd = bodyStart, bodyStart
+		}
+		if keepStart > m[0] {
+			edits = append(edits, paraEdit{start: m[0], end: keepStart})
+		}
+		if m[1] > keepEnd {
+			edits = append(edits, paraEdit{start: keepEnd, end: m[1]})
+		}
+	}
+	if len(edits) > 0 {
+		pieces = applyParaEdits(pieces, edits)
+		changed = true
+	}
+
+	// 变量：有数据的占位符替换为对应的值，没有数据的占位符保持原样
+	text, _ = paraPiecesText(pieces)
+	varPattern := regexp.MustCompile(`\{\{(\w+)\}\}`)
+	edits = edits[:0]
+	for _, m := range varPattern.FindAllStringSubmatchIndex(text, -1) {
+		if value, exists := data.Variables[text[m[2]:m[3]]]; exists {
+			edits = append(edits, paraEdit{start: m[0], end: m[1], replacement: te.interfaceToString(value)})
+		}
+	}
+	if len(edits) > 0 {
+		pieces = applyParaEdits(pieces, edits)
+		changed = true
+	}
+
+	if !changed {
 		return nil
 	}
 
-	// 先处理循环语句（包括非表格循环）
-	processedText, hasLoopChanges := te.processNonTableLoops(fullText, data)
-	if hasLoopChanges {
-		// 重新构建段落
-		para.Runs = []Run{{
-			Text: Text{Content: processedText},
-			Properties: &RunProperties{
-				FontFamily: &FontFamily{
-					ASCII:    "仿宋",
-					HAnsi:    "仿宋",
-					EastAsia: "仿宋",
-				},
-				Bold: &Bold{},
-			},
-		}}
-		fullText = processedText
+	// 重新组合成Run：相邻且来源相同的字节合并为一个Run
+	newRuns := make([]Run, 0)
+	for i := 0; i < len(pieces); {
+		piece := pieces[i]
+		source := &sourceRuns[piece.run]
+		if piece.anchor {
+			if runHasNonTextContent(source) || source.Text.Content == "" {
+				newRun := te.cloneRun(source)
+				newRun.Text.Content = ""
+				newRuns = append(newRuns, newRun)
+			}
+			i++
+			continue
+		}
+		j := i
+		content := make([]byte, 0)
+		for j < len(pieces) && !pieces[j].anchor && pieces[j].run == piece.run {
+			content = append(content, pieces[j].b)
+			j++
+		}
+		space := source.Text.Space
+		if space == "" && strings.TrimSpace(string(content)) != string(content) {
+			// 替换值带来了首尾空白：需要 xml:space="preserve" 才能在保存后保留
+			space = "preserve"
+		}
+		newRuns = append(newRuns, Run{
+			Properties: te.cloneRunProperties(source.Properties),
+			Text:       Text{Content: string(content), Space: space},
+		})
+		i = j
 	}
-
-	// 使用新的逐个变量替换方法
-	newRuns, hasVarChanges := te.replaceVariablesSequentially(runInfos, fullText, data)
-
-	// 如果有变化，更新段落的Run
-	if hasVarChanges || hasLoopChanges {
-		para.Runs = newRuns
-	}
+	para.Runs = newRuns
 
 	return nil
 }
@@ -2123,192 +2257,6 @@ func (te *TemplateEngine) processNonTableLoops(content string, data *TemplateDat
 	}
 
 	return result.String(), hasChanges
-}
-
-// replaceVariablesSequentially 逐个替换变量，保持样式
-func (te *TemplateEngine) replaceVariablesSequentially(originalRunInfos []struct {
-	startIndex int
-	endIndex   int
-	run        *Run
-}, originalText string, data *TemplateData) ([]Run, bool) {
-
-	// 找到所有变量位置
-	varPattern := regexp.MustCompile(`\{\{(\w+)\}\}`)
-	varMatches := varPattern.FindAllStringSubmatchIndex(originalText, -1)
-
-	if len(varMatches) == 0 {
-		// 没有变量，检查条件语句
-		return te.processConditionals(originalRunInfos, originalText, data)
-	}
-
-	newRuns := make([]Run, 0)
-	currentPos := 0
-	hasChanges := false
-
-	for _, varMatch := range varMatches {
-		varStart := varMatch[0]
-		varEnd := varMatch[1]
-		varNameStart := varMatch[2]
-		varNameEnd := varMatch[3]
-
-		// 添加变量前的文本（保持原样式）
-		if varStart > currentPos {
-			beforeText := originalText[currentPos:varStart]
-			beforeRuns := te.extractRunsForSegment(originalRunInfos, currentPos, varStart, beforeText)
-			newRuns = append(newRuns, beforeRuns...)
-		}
-
-		// 处理变量替换
-		varName := originalText[varNameStart:varNameEnd]
-		if value, exists := data.Variables[varName]; exists {
-			replacementText := te.interfaceToString(value)
-
-			// 为变量选择合适的样式（使用覆盖变量位置的Run样式）
-			varRun := te.findRunForPosition(originalRunInfos, varStart)
-			if varRun != nil {
-				newRun := te.cloneRun(varRun)
-				newRun.Text.Content = replacementText
-				newRuns = append(newRuns, newRun)
-				hasChanges = true
-			}
-		} else {
-			// 变量不存在，保持原始占位符
-			varText := originalText[varStart:varEnd]
-			varRun := te.findRunForPosition(originalRunInfos, varStart)
-			if varRun != nil {
-				newRun := te.cloneRun(varRun)
-				newRun.Text.Content = varText
-				newRuns = append(newRuns, newRun)
-			}
-		}
-
-		currentPos = varEnd
-	}
-
-	// 添加最后剩余的文本
-	if currentPos < len(originalText) {
-		afterText := originalText[currentPos:]
-		afterRuns := te.extractRunsForSegment(originalRunInfos, currentPos, len(originalText), afterText)
-		newRuns = append(newRuns, afterRuns...)
-	}
-
-	// 如果没有找到任何变量但文本发生了变化，处理条件语句
-	if !hasChanges {
-		return te.processConditionals(originalRunInfos, originalText, data)
-	}
-
-	// 对结果处理条件语句（但要保持每个Run的独立性）
-	if hasChanges {
-		finalRuns := te.processConditionalsPreservingRuns(newRuns, data)
-		return finalRuns, true
-	}
-
-	return newRuns, hasChanges
-}
-
-// processConditionalsPreservingRuns 处理条件语句但保持Run的独立性
-func (te *TemplateEngine) processConditionalsPreservingRuns(runs []Run, data *TemplateData) []Run {
-	finalRuns := make([]Run, 0)
-
-	for _, run := range runs {
-		originalContent := run.Text.Content
-		processedContent := te.renderConditionals(originalContent, data.Conditions)
-
-		// 如果内容发生变化，更新这个Run
-		if processedContent != originalContent {
-			newRun := run // 复制Run结构
-			newRun.Text.Content = processedContent
-			finalRuns = append(finalRuns, newRun)
-		} else {
-			// 内容没有变化，保持原样
-			finalRuns = append(finalRuns, run)
-		}
-	}
-
-	return finalRuns
-}
-
-// processConditionals 处理条件语句
-func (te *TemplateEngine) processConditionals(originalRunInfos []struct {
-	startIndex int
-	endIndex   int
-	run        *Run
-}, originalText string, data *TemplateData) ([]Run, bool) {
-
-	processedText := te.renderConditionals(originalText, data.Conditions)
-
-	if processedText == originalText {
-		// 没有变化，返回原始Runs
-		newRuns := make([]Run, len(originalRunInfos))
-		for i, runInfo := range originalRunInfos {
-			newRuns[i] = te.cloneRun(runInfo.run)
-		}
-		return newRuns, false
-	}
-
-	// 有条件语句被处理，简化处理
-	if len(originalRunInfos) == 1 {
-		newRun := te.cloneRun(originalRunInfos[0].run)
-		newRun.Text.Content = processedText
-		return []Run{newRun}, true
-	}
-
-	// 多个Run的情况，使用第一个Run的样式
-	newRun := te.cloneRun(originalRunInfos[0].run)
-	newRun.Text.Content = processedText
-	return []Run{newRun}, true
-}
-
-// extractRunsForSegment 为文本片段提取相应的Run（改进版本）
-func (te *TemplateEngine) extractRunsForSegment(originalRunInfos []struct {
-	startIndex int
-	endIndex   int
-	run        *Run
-}, segmentStart, segmentEnd int, segmentText string) []Run {
-	runs := make([]Run, 0)
-
-	for _, runInfo := range originalRunInfos {
-		// 检查Run是否与文本段有重叠
-		if runInfo.endIndex > segmentStart && runInfo.startIndex < segmentEnd {
-			overlapStart := max(runInfo.startIndex, segmentStart)
-			overlapEnd := min(runInfo.endIndex, segmentEnd)
-
-			if overlapEnd > overlapStart {
-				newRun := te.cloneRun(runInfo.run)
-				// 计算在分段文本中的相对位置
-				relativeStart := overlapStart - segmentStart
-				relativeEnd := overlapEnd - segmentStart
-
-				// 确保索引在有效范围内
-				if relativeStart >= 0 && relativeEnd <= len(segmentText) && relativeStart < relativeEnd {
-					newRun.Text.Content = segmentText[relativeStart:relativeEnd]
-					if newRun.Text.Content != "" {
-						runs = append(runs, newRun)
-					}
-				}
-			}
-		}
-	}
-
-	return runs
-}
-
-// findRunForPosition 找到覆盖指定位置的Run
-func (te *TemplateEngine) findRunForPosition(originalRunInfos []struct {
-	startIndex int
-	endIndex   int
-	run        *Run
-}, position int) *Run {
-	for _, runInfo := range originalRunInfos {
-		if position >= runInfo.startIndex && position < runInfo.endIndex {
-			return runInfo.run
-		}
-	}
-	// 如果没找到，返回第一个Run
-	if len(originalRunInfos) > 0 {
-		return originalRunInfos[0].run
-	}
-	return nil
 }
 
 // max 返回两个整数中的较大值
